@@ -230,9 +230,22 @@ def forwards(wrapper, wrapped, *args, **kwargs):
     |forwards_params|
 
     """
+    # the wrapper's own signature: if it advertises a forged one through
+    # as_forged, that is the very thing being computed here
+    computing = as_forged.currently_computing
+    try:
+        guard = wrapper not in computing
+    except TypeError: # unhashable
+        guard = False
+    if guard:
+        computing.add(wrapper)
+    try:
+        wrapper_sig = signatures.signature(wrapper)
+    finally:
+        if guard:
+            computing.discard(wrapper)
     return signatures.forwards(
-        signatures.signature(wrapper), signature(wrapped),
-        *args, **kwargs)
+        wrapper_sig, signature(wrapped), *args, **kwargs)
 
 
 @_kwowr
